@@ -887,6 +887,9 @@ class Pass2(CompilePass):
                 'FOR variable must be numeric',
                 node=node.var,
             )
+        for bound in (node.from_expr, node.to_expr, node.step_expr):
+            if bound is not None and not bound.type.is_numeric:
+                raise CompileError(EC.TYPE_MISMATCH, node=bound)
 
     def process_input_pre(self, node):
         for lvalue in node.var_list:
